@@ -93,15 +93,16 @@ theorem step_frame {isa : String} {secs secs' : List Sec} {syms : List Sym} {r :
   intro n
   by_cases hn : n = r.sect
   · subst hn
-    rw [getSec_updSec secs r.sect _ (fun _ => rfl), hsec]
+    have hg := getSec_updSec secs r.sect (fun s => { s with data := splice s.data r.offset out }) (fun _ => rfl)
+    rw [hg, hsec]
     refine ⟨by simp, fun s hs => ?_⟩
     cases hs
     refine ⟨_, rfl, rfl, ?_, fun i hi => ?_⟩
     · rcases hfit with hf | hf
       · exact splice_length hf
-      · unfold splice; simp [hf]
-        have : out = [] := List.eq_nil_of_length_eq_zero hf
-        subst this; simp
+      · have : out = [] := List.eq_nil_of_length_eq_zero hf
+        subst this
+        unfold splice; simp
     · rcases hfit with hf | hf
       · apply splice_frame hf
         unfold inSite siteSize at hi
@@ -114,7 +115,8 @@ theorem step_frame {isa : String} {secs secs' : List Sec} {syms : List Sym} {r :
       · have : out = [] := List.eq_nil_of_length_eq_zero hf
         subst this
         unfold splice; simp
-  · rw [getSec_updSec_ne secs r.sect n _ (fun _ => rfl) hn]
+  · have hg := getSec_updSec_ne secs r.sect n (fun s => { s with data := splice s.data r.offset out }) (fun _ => rfl) hn
+    rw [hg]
     exact ⟨Iff.rfl, fun s hs => ⟨s, hs, rfl, rfl, fun _ _ => rfl⟩⟩
 
 /-- symbol values only depend on section addresses -/
@@ -135,9 +137,10 @@ theorem symbolValue_frame {keep : String → Nat → Prop} {secs secs' : List Se
         | none => rw [(hf n).1.mpr hg]
         | some sec =>
           obtain ⟨s', h1, h2, _, _⟩ := (hf n).2 sec hg
-          rw [h1, h2]
+          rw [h1]
+          simp only [h2]
 
-theorem slice_congr {x y : List Nat} {b n : Nat} (hl : x.length = y.length)
+theorem slice_congr {x y : List Nat} {b n : Nat} (_hl : x.length = y.length)
     (h : ∀ i, b ≤ i → i < b + n → x[i]? = y[i]?) : slice x b n = slice y b n := by
   unfold slice
   apply List.ext_getElem?
